@@ -70,6 +70,13 @@ fn ref_cost(r: &BusRegs, kind: char, n: u32, addr: u32) -> Option<u32> {
     Some(n * per_access * accesses)
 }
 
+/// Closed-form cost of one cycle under the settings currently stored in the first register block.
+pub fn closed_cost(io1: &[u8], kind: char, addr: u32) -> Option<u32> {
+    let g = |a: u32| io1[(a - mach::IO1_LO) as usize];
+    let r = BusRegs { abwcr: g(ABWCR), astcr: g(ASTCR), wcrh: g(WCRH), wcrl: g(WCRL), drcra: g(DRCRA) };
+    ref_cost(&r, kind, 1, addr)
+}
+
 /// The settings are written the way a guest (and `init_registers`) writes them: through `Bus::write`,
 /// and only the registers whose value changes, so that successive evaluations form a history of register
 /// writes (a stale cache of decoded settings would show).
@@ -268,6 +275,60 @@ fn c19_units(tier: Tier) -> Vec<Unit> {
             restore_regs(ctx);
         },
     ));
+    // ---- histories of evaluations: the cost of a cycle must not depend on which address was costed before
+    units.push(Unit::new(
+        "address-histories",
+        8,
+        "every ordered pair (a1, a2) over ~120 addresses (both ends of every area, of on-chip RAM and of the register blocks, each +-1, +-H'1F/H'20, +-H'3F/H'40, +-H'FF/H'100, +-H'FFF/H'1000) x kinds {J, L, M} for a1 x kinds {I, L, M} for a2 under 3 settings with pairwise different area costs: the cost of a2 right after a1 was costed equals the closed form",
+        move |ctx, chunk| {
+            let mut addrs: Vec<u32> = Vec::new();
+            let mut edges: Vec<u32> = (0..8u32).flat_map(|a| [a << 21, (a << 21) + 0x1f_ffff]).collect();
+            edges.extend([0xffbf20u32, 0xffff1f, 0xfee000, 0xfee0ff, 0xffff20, 0xffffe9, 0x000100]);
+            for e in edges {
+                for d in [0i64, 1, -1, 0x1f, -0x1f, 0x20, -0x20, 0x3f, -0x3f, 0x40, -0x40, 0xff, -0xff, 0x100, -0x100, 0xfff, -0xfff, 0x1000, -0x1000] {
+                    let a = e as i64 + d;
+                    if (0..=0xff_ffff).contains(&a) {
+                        addrs.push(a as u32);
+                    }
+                }
+            }
+            addrs.sort();
+            addrs.dedup();
+            // on-chip I/O register addresses are excluded by the property (documented TODO)
+            addrs.retain(|a| !(0xfee000..=0xfee0ff).contains(a) && !(0xffff20..=0xffffe9).contains(a));
+            let settings = [
+                BusRegs { abwcr: 0xff, astcr: 0xfb, wcrh: 0xff, wcrl: 0xcf, drcra: 0xe0 },
+                BusRegs { abwcr: 0x55, astcr: 0xff, wcrh: 0x1b, wcrl: 0xe4, drcra: 0x20 },
+                BusRegs { abwcr: 0x00, astcr: 0xaa, wcrh: 0xe4, wcrl: 0x1b, drcra: 0x00 },
+            ];
+            for r in settings.iter() {
+                set_regs(ctx, r);
+                for (i, &a1) in addrs.iter().enumerate() {
+                    if i % 8 != chunk as usize {
+                        continue;
+                    }
+                    for &a2 in addrs.iter() {
+                        for &k1 in &['J', 'L', 'M'] {
+                            for &k2 in &['I', 'L', 'M'] {
+                                let _ = ctx.m.cpu.calc_state_with_addr(st_of(k1), 1, a1);
+                                if !c19_eval_current(ctx, r, k2, 1, a2) {
+                                    // name the predecessor in the counterexample
+                                    if let Some(v) = ctx.st.violations.last_mut() {
+                                        v.case["costed_before"] = json!({"kind": k1.to_string(), "addr": format!("{:x}", a1)});
+                                    }
+                                }
+                                if ctx.stop {
+                                    restore_regs(ctx);
+                                    return;
+                                }
+                            }
+                        }
+                    }
+                }
+            }
+            restore_regs(ctx);
+        },
+    ));
     units.push(Unit::new(
         "onchip-ram-and-rejects",
         1,
@@ -364,6 +425,10 @@ pub fn replay_c19(ctx: &mut Ctx, case: &Value) -> bool {
         }
     } else {
         set_regs(ctx, &r);
+    }
+    if let Some(a1) = case["costed_before"]["addr"].as_str() {
+        let k1 = case["costed_before"]["kind"].as_str().unwrap_or("J").chars().next().unwrap_or('J');
+        let _ = ctx.m.cpu.calc_state_with_addr(st_of(k1), 1, u32::from_str_radix(a1, 16).unwrap_or(0));
     }
     let got = ctx.m.cpu.calc_state_with_addr(st_of(kind), n as u8, addr).ok().map(|x| x as u32);
     let exp = ref_cost(&r, kind, n, addr);
